@@ -92,10 +92,14 @@ fn run_check(id: &str, tier: Tier, art: Option<serde_json::Value>) -> i32 {
         ("C01", None) => mc::tcp2::run_c01(tier),
         #[cfg(feature = "m_tcp2")]
         ("C01", Some(a)) => mc::tcp2::replay_c01(&a),
-        #[cfg(feature = "m_tcp2")]
+        #[cfg(all(feature = "m_tcp2", not(feature = "m_tcpsend")))]
         ("C02", None) => mc::tcp2::run_c02(tier),
-        #[cfg(feature = "m_tcp2")]
+        #[cfg(all(feature = "m_tcp2", not(feature = "m_tcpsend")))]
         ("C02", Some(a)) => mc::tcp2::replay_c02(&a),
+        #[cfg(feature = "m_tcpsend")]
+        ("C02", None) => mc::tcpsend::run_c02(tier),
+        #[cfg(feature = "m_tcpsend")]
+        ("C02", Some(a)) => mc::tcpsend::replay_c02(&a),
         #[cfg(feature = "m_tcp1")]
         ("C04", None) => mc::tcp1::run_c04(tier),
         #[cfg(feature = "m_tcp1")]
